@@ -13,6 +13,12 @@ pub mod c08;
 #[cfg(kani)]
 pub mod c17;
 #[cfg(kani)]
+pub mod c03;
+#[cfg(kani)]
+pub mod c09;
+#[cfg(kani)]
+pub mod c07;
+#[cfg(kani)]
 pub mod c05;
 #[cfg(kani)]
 pub mod c18;
